@@ -286,6 +286,12 @@ theorem timer_kept_by_backlog (g : Cfg) (s : S) (op : Op) (ht : s.wTimer = true)
     split
     · exact ht
     · unfold pAddReadWrite; rw [wT_kctl]; exact ht
+  | registerDialNow =>
+    show (registerDialNow g s).wTimer = true
+    unfold registerDialNow
+    split
+    · exact ht
+    · unfold pAddReadWrite; rw [wT_kctl]; exact ht
   | evTake o0 i e ks =>
     replace ho : (evTake g s (o0 && (g.mode != .et || s.edgeDue)) i e ks).closed = false := ho
     replace hw : (evTake g s (o0 && (g.mode != .et || s.edgeDue)) i e ks).wl ≠ [] := hw
